@@ -604,7 +604,10 @@ func init() {
 	}
 	H["verifBunInt"] = func(fr *frame, a []value) value {
 		if c := bunNth(strArg(a[0]), int(asInt64(a[1]))); c != nil && len(c.args) > 0 {
-			if n, ok := c.args[0].(int); ok {
+			switch n := c.args[0].(type) {
+			case int:
+				return n
+			case symInt: // a symbolic int argument is handed over as it is
 				return n
 			}
 		}
